@@ -25,8 +25,9 @@
 // Oracle, after every event (before/after observation of all callers and of the server's table):
 // a call completes at most once; a success carries the caller's own payload; an error belongs to an
 // allowed class and names a cause that happened to this call; an event completes exactly the calls
-// it concerns (answer -> that call succeeds; stream failure -> the calls pending on that stream
-// fail, no other; cancel / time-out -> that call; Close -> all); Close returns; no panic in callers
+// it concerns (answer -> that call succeeds; stream failure -> no call of another stream fails; a
+// call of the failed stream that stays pending is only an observation, it must return by its own
+// time-out / cancellation / Close; cancel / time-out -> that call; Close -> all); Close returns; no panic in callers
 // or recovered inside the client's loops; no loop of the client spins for ever.
 //
 // Nothing is decided by wall-clock time. If quiescence cannot be established, or an execution took
@@ -304,6 +305,8 @@ type totals struct {
 	errorLogs       map[string]bool
 	viol            map[string]violHit
 	violCfg         map[string]Config
+	obs             map[string]violHit
+	obsCfg          map[string]Config
 	perCfg          []map[string]any
 	lost            int
 	poisoned        int
@@ -354,6 +357,16 @@ func (t *totals) merge(cfg Config, r *subtreeResult) {
 	}
 	for _, m := range r.Extra["error_logs"] {
 		t.errorLogs[m[:strings.LastIndex(m, " x")]] = true
+	}
+	for k, h := range r.Obs {
+		old, ok := t.obs[k]
+		n := old.Count + h.Count
+		if !ok || simpler(h.Events, old.Events) {
+			old = h
+			t.obsCfg[k] = cfg
+		}
+		old.Count = n
+		t.obs[k] = old
 	}
 	for k, h := range r.Viol {
 		old, ok := t.viol[k]
@@ -599,7 +612,7 @@ func main() {
 	}
 	deadline := time.Now().Add(budget)
 	tot := &totals{states: map[uint64]struct{}{}, outcomes: map[string]int{}, inconclusive: map[string]int{}, byF: map[string]int{},
-		kinds: map[string]int{}, errorLogs: map[string]bool{}, viol: map[string]violHit{}, violCfg: map[string]Config{}}
+		kinds: map[string]int{}, errorLogs: map[string]bool{}, viol: map[string]violHit{}, violCfg: map[string]Config{}, obs: map[string]violHit{}, obsCfg: map[string]Config{}}
 	samples := ev.NewSamples(6, run.Seed)
 	cfgs := tierConfigs(run.Thorough())
 	var cfgNames []string
@@ -613,6 +626,15 @@ func main() {
 	}
 	for k, h := range tot.viol {
 		run.Violation(k, fmt.Sprintf("%s [events %v; %d execution(s); %s]", h.What, h.Events, h.Count, tot.violCfg[k]), replayArt{Cfg: tot.violCfg[k], Events: h.Events})
+	}
+	observations := map[string]any{}
+	pendingOther := 0
+	for k, h := range tot.obs {
+		if strings.HasPrefix(k, "pending_until_own_timeout_after_other_stream_failure") {
+			pendingOther += h.Count
+		}
+		observations[k] = map[string]any{"executions": h.Count, "shortest_sequence": h.Events, "config": tot.obsCfg[k].String(), "what": h.What}
+		run.Note("observation (not a violation) %s: %d execution(s), shortest sequence %v", k, h.Count, h.Events)
 	}
 	inconclusive := 0
 	for k, n := range tot.inconclusive {
@@ -639,10 +661,12 @@ func main() {
 			"(the index is only a name); states = distinct observation states (caller status and result class, server request table, streams, closed flags); " +
 			"transitions = events executed on the real client; evaluations = events after which the oracle compared before/after observations; " +
 			"non-trivial = execution with a deviation event or >= 2 calls in flight at once",
-		"samples":                      samples.List(),
-		"bounds":                       map[string]any{"configurations": cfgNames, "split_depth": "3 (5 with 4 callers)", "worker_processes": nproc},
-		"per_configuration":            tot.perCfg,
-		"distinct_outcomes":            len(tot.outcomes),
+		"samples":           samples.List(),
+		"bounds":            map[string]any{"configurations": cfgNames, "split_depth": "3 (5 with 4 callers)", "worker_processes": nproc},
+		"per_configuration": tot.perCfg,
+		"distinct_outcomes": len(tot.outcomes),
+		"observations":      observations,
+		"pending_until_own_timeout_after_other_stream_failure": pendingOther,
 		"outcomes":                     tot.outcomes,
 		"executions_by_deviations":     tot.byF,
 		"event_kinds_executed":         tot.kinds,
@@ -661,7 +685,7 @@ func main() {
 		"Level 1 only: interleavings of goroutines inside the client between two environment events are left to the Go scheduler (one P) and are not enumerated; requests are batched together only when the concurrency limit queues them (max_requests_in_one_batch).",
 		"Quiescence = scheduler metrics (no runnable goroutine, none in a system call) under GOMAXPROCS=1, cross-checked by stack snapshots; gRPC keeps real timers (keepalive >= 10 s, reconnect back-off >= 100 ms after a broken connection) that do not fire in millisecond executions; executions longer than 0.5 s are discarded and repeated.",
 		"Virtual time: the caller's time-out, the send loop's idle timer (vtime rewrite of client_batch.go, conn_batch.go, client_async.go) and waitConnReady's dial budget (context shim for client_batch.go) fire only when the explorer decides; the dial budget elapses whenever the system is quiet. Function bodies are unchanged.",
-		"Prompt completion (answer -> the call returns; stream failure -> the pending calls of that stream fail and no others) is read from the mechanisms named in the property's anchors, the property sentence itself only promises a return by the time-out; every such rule has its own violation key (stuck/..., spurious-return/...).",
+		"A call that stays pending after its stream failed is NOT a violation (the property only promises a return by the call's own time-out / cancellation / Close, which keep their own must-return rules; an asynchronous call never completed even by Close is a violation): it is counted under coverage.observations with the shortest sequence, as is the entry it leaves in the in-flight table. A stream failure must still not fail calls of other streams, and an answered call must return (own violation keys spurious-return/..., stuck/.../after-A).",
 		"A livelock is reported only on positive evidence that does not depend on time: in 40 consecutive scheduler passes the client's no-available-connection counter moved and stack snapshots show the send loop as the only goroutine that is not blocked.",
 		"Batch policy 'basic' (no time based batch waiting); the server never answers on a stream of another connection or kind; stream drops do not break the connection; errors of waitConnReady (dial budget) count as connection failures.",
 	})
